@@ -228,6 +228,7 @@ def run_session(workdir, scn, sess, timeout_guard=None):
         obs['steps'] = controller.steps
         obs['ctl_error'] = controller.error
         obs['T'] = controller.T
+        obs['chunks'] = controller.chunks if controller._orig_acquire is not None else None
     final = {}
     for r in grabbed.get('runs') or []:
         tc = getattr(r, '_termination_check', None)
@@ -292,6 +293,8 @@ class Controller(threading.Thread):
         self._stop = False
         self._pos = 0
         self._orig_cls = None
+        self._orig_acquire = None
+        self.chunks = []       # what acquire_work handed out, in order
 
     # -- patch point
     def install(self):
@@ -320,10 +323,27 @@ class Controller(threading.Thread):
                         ctl.exited += 1
                         ctl.cv.notify_all()
         rb_exec.BenchmarkThread = CountingBenchmarkThread
+        # log what acquire_work hands out, in hand-out order (the scheduler's lock is re-entrant)
+        ps = getattr(rb_exec, 'ParallelScheduler', None)
+        orig_acquire = getattr(ps, 'acquire_work', None) if ps is not None else None
+        self._orig_acquire = orig_acquire
+        if orig_acquire is not None:
+            def acquire_work(sched_self):
+                lock = getattr(sched_self, '_lock', None)
+                if lock is None:
+                    return orig_acquire(sched_self)
+                with lock:
+                    work = orig_acquire(sched_self)
+                    if work is not None:
+                        ctl.chunks.append([_run_index(r) for r in work])
+                    return work
+            ps.acquire_work = acquire_work
 
     def uninstall(self):
         if self._orig_cls is not None:
             rb_exec.BenchmarkThread = self._orig_cls
+        if getattr(self, '_orig_acquire', None) is not None:
+            rb_exec.ParallelScheduler.acquire_work = self._orig_acquire
 
     # -- called from the scripted process (subprocess thread of a worker)
     def block(self, run, inv=None):
